@@ -610,6 +610,9 @@ def check_olpc(ctx, chains, rule_net, rule_ctx):
                 n_input += 1
                 ne = False
                 for (e, fa) in gb.facts_dominating(i):
+                    # `match c { '\\' => .., other => push(other) }`: the fall-through edge of a switch on the character
+                    if fa[0] == "intnot" and 92 in fa[2] and gb.blocks[e[0]]["term"].get("discr_ty") == "char":
+                        ne = True
                     cm = as_cmp(fa)
                     if cm and cm[0] == "Ne":
                         for o in (cm[1], cm[2]):
